@@ -301,8 +301,29 @@ fn gen_msg_bytes(r: &mut Rng, tag: u8) -> Vec<u8> {
     m.serialize()
 }
 
+/// where the worker's lines go (stdout of the child process)
+struct Emit {
+    idx: usize,
+    start: usize,
+}
+impl Emit {
+    fn line(&self, tag: &str, s: &str) {
+        use std::io::Write;
+        let o = std::io::stdout();
+        let mut o = o.lock();
+        writeln!(o, "{}\t{}", tag, s).unwrap();
+        o.flush().unwrap();
+    }
+    fn count(&self, key: &str) {
+        self.line("H", key);
+    }
+    fn monitor_fail(&self, key: &str, what: &str, replay: serde_json::Value) {
+        self.line("M", &format!("{}\t{}\t{}", key, what.replace('\t', " ").replace('\n', " "), replay));
+    }
+}
+
 struct Ctx<'a> {
-    out: &'a mut Out,
+    out: &'a mut Emit,
     max_ratio_milli: u64,
     worst_alloc: (String, usize, usize),
 }
@@ -310,6 +331,14 @@ struct Ctx<'a> {
 impl<'a> Ctx<'a> {
     /// run one input through the real decoder, record the model request, and apply the direct monitors
     fn feed(&mut self, fmt: &str, bytes: &[u8], origin: &str) {
+        let idx = self.out.idx;
+        self.out.idx += 1;
+        if idx < self.out.start {
+            return; // already done by a previous worker
+        }
+        self.out.line("C", &idx.to_string());
+        let op = format!("dec {} {}", fmt, hex(bytes));
+        self.out.line("O", &op);
         let (ans, peak) = impl_decode(fmt, bytes);
         let cls = ans.split(' ').next().unwrap().to_string();
         self.out.count(&format!("{}:{}:{}", fmt, origin, cls));
@@ -332,7 +361,7 @@ impl<'a> Ctx<'a> {
             self.max_ratio_milli = ratio;
             self.worst_alloc = (fmt.to_string(), bytes.len(), peak);
         }
-        self.out.case(&format!("dec {} {}", fmt, hex(bytes)), &ans);
+        self.out.line("I", &ans);
     }
 
     /// C09 monitor on a value produced by the real encoder: decode gives back the same bytes, the size
@@ -467,8 +496,23 @@ fn mutate_and_feed(c: &mut Ctx, r: &mut Rng, fmt: &str, valid: &[u8], len_fields
     c.feed(fmt, &m, "extend");
 }
 
+/// parent: the decoders run in a child process, so that an allocation abort (or a decoder that never returns)
+/// becomes the answer `abort` / `stall` with a finding, instead of killing the run
 pub fn run(seed: u64, tier: &str, outdir: &str) {
     let mut out = Out::new(outdir);
+    let n = supervise(&mut out, "codec-worker", seed, tier, 20_000, 30, &|op, died| {
+        let fmt = op.split(' ').nth(1).unwrap_or("?").to_string();
+        if died {
+            ("abort".to_string(), format!("C10/{}/process-aborted-in-decoder", fmt), "the process died inside the decoder call (allocation failure / abort)".to_string())
+        } else {
+            ("stall".to_string(), format!("C10/{}/decoder-does-not-return", fmt), "the decoder did not return within 20 s".to_string())
+        }
+    });
+    out.finish(serde_json::json!({"worker_failures": n}));
+}
+
+pub fn worker(seed: u64, tier: &str, start: usize) {
+    let mut out = Emit { idx: 0, start };
     let mut r = Rng::new(seed);
     let thorough = tier == "thorough";
     let reps = if thorough { 40 } else { 4 };
@@ -483,8 +527,10 @@ pub fn run(seed: u64, tier: &str, outdir: &str) {
         probe("gt", &[0u8; 96]),
         probe("wallet", &[0u8; 10])
     );
-    out.setup(&format!("flags {}", flags));
-    out.count(&format!("flags_measured {}", flags));
+    if start == 0 {
+        out.line("S", &format!("flags {}", flags));
+        out.count(&format!("flags_measured {}", flags));
+    }
     let mut c = Ctx { out: &mut out, max_ratio_milli: 0, worst_alloc: (String::new(), 0, 0) };
 
     // corpus first: the witnesses of the known findings and past disagreements
@@ -534,7 +580,15 @@ pub fn run(seed: u64, tier: &str, outdir: &str) {
         // blocks
         for i in 0..5 {
             let ntx = [0usize, 1, 2, 3, 6][i % 5];
-            let blk = gen_block(&mut r, ntx);
+            let mut blk = gen_block(&mut r, ntx);
+            if i == 4 {
+                // a transaction whose two slip lists are each legal (<= 255) but together exceed 255
+                let mut big = gen_tx(&mut r, false);
+                let (ni, no) = *r.pick(&[(200usize, 100usize), (255, 255), (255, 1), (1, 255), (128, 128)]);
+                big.from = (0..ni).map(|_| gen_slip(&mut r)).collect();
+                big.to = (0..no).map(|_| gen_slip(&mut r)).collect();
+                blk.transactions.push(big);
+            }
             c.roundtrip_block(&blk);
             let b = blk.serialize_for_net(BlockType::Full);
             // length fields: n_tx and the four fields of the first and second tx
@@ -618,8 +672,8 @@ pub fn run(seed: u64, tier: &str, outdir: &str) {
             }
         }
     }
-    let extra = serde_json::json!({
-        "worst_alloc": {"fmt": c.worst_alloc.0, "input_len": c.worst_alloc.1, "peak": c.worst_alloc.2},
-    });
-    out.finish(extra);
+    let wa = format!("worst_alloc fmt={} input_len={} peak={}", c.worst_alloc.0, c.worst_alloc.1, c.worst_alloc.2);
+    let n = c.out.idx;
+    out.count(&wa);
+    out.line("E", &n.to_string());
 }
